@@ -249,10 +249,29 @@ def m_opt_copied(it, ctx, callee, args):
 
 @model(r"Option::and_then")
 def m_and_then(it, ctx, callee, args):
+    from .interp import TailCall
     o, f = args
     if o.variant == "None":
         return NONE
-    return it.call_value(ctx, f, [o.fields[0]])
+    return TailCall(f, [o.fields[0]])
+
+
+@model(r"Option::or_else")
+def m_or_else(it, ctx, callee, args):
+    from .interp import TailCall
+    o, f = args
+    if o.variant == "Some":
+        return o
+    return TailCall(f, [])
+
+
+@model(r"Option::unwrap_or_else")
+def m_unwrap_or_else(it, ctx, callee, args):
+    from .interp import TailCall
+    o, f = args
+    if o.variant == "Some":
+        return o.fields[0]
+    return TailCall(f, [])
 
 
 @model(r"Option::map")
